@@ -44,12 +44,31 @@ class LayerSpec(Spec):
     unroll = 1
     no_inline: tuple = ("handle_event",)
     dispatch_attrs: tuple = ()  # tracked attrs that hold bound methods and are *called*
+    # tracked chains that denote *objects*: the tracked value is a flag about the object (truthiness), the value of the expression is
+    # a reference R(chain) - so a local / parameter bound to the object is an alias of it (`buf = self.x_buf; buf.clear()`)
+    object_attrs: tuple = ()
+    nullable_attrs: tuple = ()  # object_attrs that are falsy exactly when they are None
+    typed_refs: dict = {}  # chain -> (class the object is an instance of, classes it is not an instance of)   (named refinement)
 
     def __init__(self, model, rel: str, cls: str):
         self.model = model
         self.rel = rel
         self.cls = cls
         self._isa_cache: dict = {}
+        self._pure_busy: set = set()
+        self._locals_cache: dict = {}
+        mod = model.module(rel)
+        names = set()
+        for n in mod.tree.body:
+            if isinstance(n, (ast.FunctionDef, ast.AsyncFunctionDef, ast.ClassDef)):
+                names.add(n.name)
+            elif isinstance(n, (ast.Import, ast.ImportFrom)):
+                names |= {(a.asname or a.name).split(".")[0] for a in n.names}
+            elif isinstance(n, (ast.Assign, ast.AnnAssign)):
+                for t in n.targets if isinstance(n, ast.Assign) else [n.target]:
+                    if isinstance(t, ast.Name):
+                        names.add(t.id)
+        self._module_names = names
 
     # ---- class relations read from source
     def class_ancestors(self, name: str) -> set[str]:
@@ -81,9 +100,57 @@ class LayerSpec(Spec):
         return cls_name in self.class_ancestors(kind)
 
     # ---- values
+    def _fn_locals(self, node) -> set:
+        """names bound inside the function enclosing ``node`` (parameters, stores); empty for synthesised nodes"""
+        n = getattr(node, "_parent", None)
+        while n is not None and not isinstance(n, (ast.FunctionDef, ast.AsyncFunctionDef, ast.Lambda)):
+            n = getattr(n, "_parent", None)
+        if n is None:
+            return set()
+        c = self._locals_cache.get(id(n))
+        if c is None or c[0] is not n:
+            names = set()
+            for x in ast.walk(n):
+                if isinstance(x, ast.Name) and isinstance(x.ctx, (ast.Store, ast.Del)):
+                    names.add(x.id)
+                elif isinstance(x, ast.arg):
+                    names.add(x.arg)
+            c = (n, names)
+            self._locals_cache[id(n)] = c
+        return c[1]
+
+    def chain(self, expr, st, depth) -> str:
+        """attribute chain of ``expr`` with a leading local that is bound to a reference replaced by that reference
+        (`flow = self.flow; flow.live` is `self.flow.live`); '' when ``expr`` is not a chain"""
+        ch = attr_chain(expr)
+        if not ch:
+            return ""
+        root, _, rest = ch.partition(".")
+        if root in ("self", "cls"):
+            return ch
+        v = st.get(f"{depth}:{root}")
+        if isinstance(v, tuple) and len(v) == 2 and v[0] == "r":
+            return v[1] + ("." + rest if rest else "")
+        return ch
+
+    def ev_depth(self, node, st) -> int:
+        """frame in which ``node`` is being evaluated, for callbacks that are not told (``events``): the deepest frame that binds a
+        local name used in ``node`` (frames of finished calls are dropped from the state, so the deepest binding is the live one)"""
+        names = {n.id for n in ast.walk(node) if isinstance(n, ast.Name)}
+        best = 0
+        for k, _ in st.env:
+            d, sep, nm = k.partition(":")
+            if sep and d.isdigit() and nm in names and int(d) > best:
+                best = int(d)
+        return best
+
     def value(self, expr, st, depth):
         if isinstance(expr, ast.Call):
             name = last_attr(expr.func)
+            if isinstance(expr.func, ast.Name):
+                fv = self.value(expr.func, st, depth)
+                if fv[0] == "r" and "." not in fv[1]:
+                    name = fv[1]  # a class bound to a local (`make = RequestData if up else ResponseData; make(..)`)
             if name and name[0].isupper() and self.is_event_class(name):
                 attrs = {}
                 for k in expr.keywords:
@@ -92,34 +159,142 @@ class LayerSpec(Spec):
                         if is_const(v):
                             attrs[k.arg] = v[1]
                 return EV(name, **attrs)
+            pv = self.pure_call(expr, st, depth)
+            if pv is not None:
+                return pv
             return Spec.value(self, expr, st, depth)
-        if isinstance(expr, ast.Attribute) and isinstance(expr.value, ast.Name):
-            base = st.get(f"{depth}:{expr.value.id}")
-            if is_ev(base):
-                for k, v in base[2]:
-                    if k == expr.attr:
-                        return C(v)
-                return UNKNOWN
+        if isinstance(expr, ast.Name):
+            key = f"{depth}:{expr.id}"
+            if st.has(key):
+                return st.get(key)
+            if expr.id in self._module_names and expr.id not in self._fn_locals(expr):
+                return R(expr.id)  # module-level class / function / constant: a stable reference
+            return UNKNOWN
+        if isinstance(expr, ast.Attribute):
+            if isinstance(expr.value, ast.Name):
+                base = st.get(f"{depth}:{expr.value.id}")
+                if is_ev(base):
+                    for k, v in base[2]:
+                        if k == expr.attr:
+                            return C(v)
+                    return UNKNOWN
+            ch = self.chain(expr, st, depth)
+            if ch:
+                if ch in self.object_attrs:
+                    return R(ch)
+                if st.has(ch):
+                    return st.get(ch)
+                return R(ch)
+        if isinstance(expr, ast.IfExp):
+            t = self.truth(expr.test, st, depth)
+            if t is not None:
+                return self.value(expr.body if t else expr.orelse, st, depth)
+            return UNKNOWN
+        if isinstance(expr, ast.NamedExpr):
+            return self.value(expr.value, st, depth)
         return Spec.value(self, expr, st, depth)
+
+    def pure_call(self, call, st, depth):
+        """Value of `self.helper(args)` for a non-generator helper of the layer whose abstract execution from this state has no
+        event, no effect on the tracked state and one result on all paths (a predicate / selector such as `self._has_outcome()`):
+        decided by executing the helper, so an extracted decision equals the in-line one.  None = not such a call."""
+        f = call.func
+        if not (isinstance(f, ast.Attribute) and isinstance(f.value, ast.Name) and f.value.id in ("self", "cls")):
+            return None
+        name = f.attr
+        if name in self.no_inline or f"self.{name}" in self.tracked:
+            return None
+        r = self.model.method(self.rel, self.cls, name)
+        if r is None:
+            return None
+        fn = r[1]
+        if not isinstance(fn, ast.FunctionDef) or any(isinstance(n, (ast.Yield, ast.YieldFrom, ast.Await)) for n in ast.walk(fn)):
+            return None
+        key = (id(fn), depth)
+        if key in self._pure_busy or depth + 1 > self.max_depth:
+            return None
+        self._pure_busy.add(key)
+        try:
+            base = State((), st.env)
+            o = Engine(self).call(fn, call, {base}, depth)
+        finally:
+            self._pure_busy.discard(key)
+        if o.exc or not o.ret:
+            return None
+        vals = set()
+        for s in o.ret:
+            if s.trace or s.drop(lambda k: k == "$ret").env != base.env:
+                return None
+            vals.add(s.get("$ret"))
+        return vals.pop() if len(vals) == 1 else UNKNOWN
 
     def is_event_class(self, name: str) -> bool:
         anc = self.class_ancestors(name)
         return "Event" in anc or "HttpEvent" in anc
 
+    def object_flag(self, v, st):
+        """truthiness flag of the tracked object a reference denotes: True / False / None"""
+        if isinstance(v, tuple) and len(v) == 2 and v[0] == "r" and v[1] in self.object_attrs:
+            f = st.get(v[1])
+            if is_const(f):
+                return bool(f[1])
+        return None
+
+    def decide_leaf(self, cond, st, depth):
+        if isinstance(cond, (ast.Name, ast.Attribute, ast.NamedExpr, ast.IfExp)):
+            v = self.value(cond, st, depth)
+            if is_const(v):
+                return bool(v[1])
+            if v[0] == "r":
+                if v[1] in self.object_attrs:
+                    return self.object_flag(v, st)
+                if "." not in v[1] and v[1] in self._module_names and v[1][:1].isupper():
+                    return True  # a class object
+        if isinstance(cond, ast.Compare) and len(cond.ops) == 1 and isinstance(cond.ops[0], (ast.Is, ast.IsNot, ast.Eq, ast.NotEq)):
+            a = self.value(cond.left, st, depth)
+            b = self.value(cond.comparators[0], st, depth)
+            for x, y in ((a, b), (b, a)):
+                if y == C(None) and x[0] == "r" and x[1] in self.object_attrs:
+                    if x[1] in self.nullable_attrs and self.object_flag(x, st) is not True:
+                        return None  # unset or unknown: both outcomes are kept (rules start helpers in arbitrary states)
+                    isnone = False
+                    return isnone if isinstance(cond.ops[0], (ast.Is, ast.Eq)) else not isnone
+        return Spec.decide_leaf(self, cond, st, depth)
+
     def decide_extra(self, cond, st, depth):
         if isinstance(cond, ast.Call) and isinstance(cond.func, ast.Name) and cond.func.id == "isinstance" and len(cond.args) == 2:
             v = self.value(cond.args[0], st, depth)
+            names = class_names(cond.args[1])
             if is_ev(v):
-                names = class_names(cond.args[1])
                 if not names:
                     return None
                 return any(self.ev_isa(v[1], n) for n in names)
+            if v[0] == "r" and v[1] in self.typed_refs and names:
+                is_a, not_a = self.typed_refs[v[1]]
+                if any(n == is_a for n in names):
+                    return True
+                if all(n in not_a for n in names):
+                    return False
+            return None
+        if isinstance(cond, ast.Call):
+            v = self.pure_call(cond, st, depth)
+            if v is not None and is_const(v):
+                return bool(v[1])
         return None
 
     # ---- inlining
     def inline(self, call, st, depth):
         f = call.func
-        if isinstance(f, ast.Attribute) and isinstance(f.value, ast.Name) and f.value.id == "self":
+        if isinstance(f, ast.Name) and st.has(f"{depth}:{f.id}"):
+            # a bound method kept in a local (`handler = self.client_state if from_client else self.server_state; yield from handler(event)`)
+            v = st.get(f"{depth}:{f.id}")
+            if isinstance(v, tuple) and len(v) == 2 and v[0] == "r" and v[1].startswith("self.") and v[1].count(".") == 1:
+                if v[1][5:] in self.no_inline:
+                    return self.inline_special(call, st, depth)
+                r = self.model.method(self.rel, self.cls, v[1][5:])
+                return r[1] if r else None
+            return None  # some other callable (an addon's stream function, a library function): opaque
+        if isinstance(f, ast.Attribute) and isinstance(f.value, ast.Name) and f.value.id in ("self", "cls", self.cls):
             name = f.attr
             if name in self.no_inline:
                 return self.inline_special(call, st, depth)
